@@ -40,6 +40,9 @@ type vfE5Micro struct {
 	nobj  int
 	hist  map[string]int
 	dead  bool
+	// fixes/F27 in the tree: REQ / TOUCH hold c.RLock, Empty holds c.Lock — the generator does not start one while
+	// the other is parked (it would block; model: disabled)
+	ansLock bool
 }
 
 var vfE5MicroPoints = []string{"chan.fin.afterPop", "chan.req.afterPop", "chan.touch.afterPop",
@@ -233,6 +236,15 @@ func (m *vfE5Micro) free(o int) bool { // object id not located anywhere and not
 	return !found
 }
 
+func (m *vfE5Micro) answerPending() bool {
+	for _, t := range m.tasks {
+		if t.kind == "req" || t.kind == "touch" {
+			return true
+		}
+	}
+	return false
+}
+
 func (m *vfE5Micro) emptyPending() bool {
 	for _, t := range m.tasks {
 		if t.kind == "empty" {
@@ -349,7 +361,7 @@ func (m *vfE5Micro) stepOnce() {
 		_, res := m.start("fin", o, func() error { return c.FinishMessage(cl, vfE5ID(o)) })
 		m.emit(fmt.Sprintf("finPop %d %d", cl, o), res)
 	case x < 70:
-		if m.objs[o] == nil {
+		if m.objs[o] == nil || (m.ansLock && m.emptyPending()) {
 			return
 		}
 		d := time.Duration(0)
@@ -359,7 +371,7 @@ func (m *vfE5Micro) stepOnce() {
 		_, res := m.start("req", o, func() error { return c.RequeueMessage(cl, vfE5ID(o), d) })
 		m.emit(fmt.Sprintf("reqPop %d %d %d", cl, o, int64(d)), res)
 	case x < 80:
-		if m.objs[o] == nil {
+		if m.objs[o] == nil || (m.ansLock && m.emptyPending()) {
 			return
 		}
 		_, res := m.start("touch", o, func() error { return c.TouchMessage(cl, vfE5ID(o), time.Duration(1+r.Intn(50))*time.Second) })
@@ -384,7 +396,7 @@ func (m *vfE5Micro) stepOnce() {
 		c.processDeferredQueue(tm)
 		m.emit(fmt.Sprintf("dscan %d", tm), "ok")
 	case x < 97:
-		if m.emptyPending() {
+		if m.emptyPending() || (m.ansLock && m.answerPending()) {
 			return
 		}
 		_, res := m.start("empty", 0, func() error { return c.Empty() })
@@ -435,6 +447,8 @@ func TestVerifE5MicroCorr(t *testing.T) {
 	steps := vfEnvInt("VERIF_STEPS", 40)
 	fixed := vfEnvInt("VERIF_FIXED", 0)
 	scanAtomic := vfEnvInt("VERIF_SCANATOMIC", 0)
+	pushAtomic := vfEnvInt("VERIF_PUSHATOMIC", 0)
+	ansLock := vfEnvInt("VERIF_ANSLOCK", 0)
 	opts := vfE5Opts(t.TempDir())
 	opts.MemQueueSize = 64
 	n, err := New(opts)
@@ -446,9 +460,9 @@ func TestVerifE5MicroCorr(t *testing.T) {
 		ch := &Channel{topicName: "m", name: fmt.Sprintf("c%d#ephemeral", i), nsqd: n, ephemeral: true,
 			clients: make(map[int64]Consumer), memoryMsgChan: make(chan *Message, 64), backend: newDummyBackendQueue()}
 		ch.initPQ()
-		m := &vfE5Micro{t: t, n: n, ch: ch, objs: map[int]*Message{}, out: out, r: r, nobj: 2 + r.Intn(4), hist: hist}
+		m := &vfE5Micro{t: t, n: n, ch: ch, objs: map[int]*Message{}, out: out, r: r, nobj: 2 + r.Intn(4), hist: hist, ansLock: ansLock == 1}
 		m.install()
-		out.Case(fmt.Sprintf("if new %d %d", fixed, scanAtomic), "ok")
+		out.Case(fmt.Sprintf("if new %d %d %d %d", fixed, scanAtomic, pushAtomic, ansLock), "ok")
 		for s := 0; s < steps && !m.dead; s++ {
 			m.stepOnce()
 		}
